@@ -39,6 +39,9 @@ CHAIN = ['grammar %(a)s\nclass K1 { a: "1" }\nclass K2 { a: "2"; b: K1 }\nstart 
          'grammar %(c)s extends %(b)s\nclass C1 { p: B1; q: K2? }\nstart = C1\n']
 
 
+CHAIN_A2 = 'grammar %(a)s\nclass K1 { a: "1" | "3" }\nclass K3 { c: "9" }\nclass K2 { a: "2"; b: K1 | K3 }\nstart = K2\n'
+
+
 def chain_job(st):
     """objects of a three-level chain: repr / copy / pickle in the namespace of the most derived module"""
     res = {'ctr': {'cases': 0, 'nontrivial': 0, 'states': 0, 'transitions': 0}, 'sets': {}, 'viol': [], 'viol_keys': []}
@@ -68,6 +71,35 @@ def chain_job(st):
                     why = '%s' % type(x).__name__
                 if why:
                     viol(res, sigs, 'chain-%s %s' % (name, why), (('chain', type(o).__name__, text),), why)
+    # the base is compiled again under its name with one more class, then its descendants are compiled again (same
+    # descriptions): objects of the new leaf live in the new leaf's namespace
+    mods = []
+    for d in [CHAIN_A2] + CHAIN[1:]:
+        b = impl.build(d % names)
+        if b[0] != 'OK':
+            viol(res, sigs, 'revised-chain COMPILE', (('chain',),), list(b))
+            break
+        mods.append(b[1])
+    else:
+        top = mods[-1]
+        for text in ('1b', '1b29', '3b21'):
+            try:
+                r = top.parse(text)
+            except Exception as x:
+                viol(res, sigs, 'revised-chain parse %s' % type(x).__name__, (('chain', text),), str(x)[:80])
+                continue
+            for o in top.visit(r):
+                for name, f in (('repr', lambda: eval(repr(o), dict(vars(top))) == o),
+                                ('deepcopy', lambda: copy.deepcopy(o) == o),
+                                ('pickle', lambda: pickle.loads(pickle.dumps(o)) == o)):
+                    res['ctr']['cases'] += 1
+                    res['ctr']['states'] += 1
+                    try:
+                        why = None if f() else 'not equal'
+                    except Exception as x:
+                        why = '%s' % type(x).__name__
+                    if why:
+                        viol(res, sigs, 'revised-chain-%s %s' % (name, why), (('chain', type(o).__name__, text),), why)
     for n in names.values():
         impl.uninstall(n)
     res['sample'] = {'chain': [d % names for d in CHAIN]}
@@ -107,6 +139,40 @@ def dotted_job(st):
     for n in ('vf_c14_pkg.alpha', 'vf_c14_pkg.beta', 'vf_c14_pkg.sub.gamma', 'vf_c14_pkg.sub.delta', 'vf_c14_pkg.sub', 'vf_c14_pkg'):
         impl.uninstall(n)
     res['sample'] = {'dotted': DOTTED}
+    return res
+
+
+def long_job(st):
+    """fields holding long containers (up to 40 items), built, hashed and dropped in a loop so that later containers are
+    allocated where hashed ones lived: an object always has the hash of its independently built equal"""
+    res = {'ctr': {'cases': 0, 'nontrivial': 0, 'states': 0, 'transitions': 0}, 'sets': {}, 'viol': [], 'viol_keys': []}
+    sigs = set()
+    g = st['g']
+    makers = {'list': lambda xs: list(xs), 'tuple': lambda xs: tuple(xs), 'dict': lambda xs: {x: x for x in xs},
+              'nested': lambda xs: [list(xs), tuple(xs)]}
+    for kind, mk in makers.items():
+        for n in (1, 7, 8, 9, 10, 16, 17, 40):
+            for rnd in range(40):
+                res['ctr']['cases'] += 1
+                res['ctr']['states'] += 1
+                res['ctr']['nontrivial'] += 1
+                a = g.K2(mk(range(rnd, rnd + n)), 'x')
+                ha = hash(a)
+                del a
+                b = g.K2(mk(range(rnd + 1, rnd + 1 + n)), 'x')
+                hb = hash(b)
+                twin = g.K2(mk(range(rnd + 1, rnd + 1 + n)), 'x')
+                r2 = b._replace(b='x')
+                why = None
+                if not (b == twin and twin == b and b == r2):
+                    why = 'equal builds differ'
+                elif hash(twin) != hb or hash(r2) != hb or hash(b) != hb:
+                    why = 'equal objects, different hash'
+                elif len({b, twin, r2}) != 1:
+                    why = 'a set keeps equal objects apart'
+                if why:
+                    viol(res, sigs, 'long-container %s' % why, (('long', kind, n, rnd),), why)
+    res['sample'] = {'long': sorted(makers)}
     return res
 
 
@@ -265,13 +331,26 @@ def single_job(job, st):
             continue            # pickling and repr create new NaN objects
 
         def t_pickle():
-            c = pickle.loads(pickle.dumps(r))
-            if not ox.ref_eq(g, c, r) or not (c == r):
-                return 'round trip not equal'
+            for proto in range(0, pickle.HIGHEST_PROTOCOL + 1):
+                c = pickle.loads(pickle.dumps(r, proto))
+                if not ox.ref_eq(g, c, r) or not (c == r):
+                    return 'round trip not equal (protocol %d)' % proto
+                if ox.snapshot(g, c) != snap:
+                    return 'metadata differs (protocol %d)' % proto
+                w = same_value(g, c, ox.construct(script, g)[-1])
+                if w:
+                    return w
+        op('pickle', t_pickle)
+
+        def t_copy():
+            c = copy.copy(r)
+            if c is r or type(c) is not type(r) or not (c == r) or hash(c) != hash(r):
+                return 'shallow copy not an equal new object'
+            if any(getattr(c, f) is not getattr(r, f) for f in r._fields):
+                return 'shallow copy does not share the field values'
             if ox.snapshot(g, c) != snap:
                 return 'metadata differs'
-            return same_value(g, c, ox.construct(script, g)[-1])
-        op('pickle', t_pickle)
+        op('copy', t_copy)
 
         def t_repr():
             c = eval(repr(r), dict(vars(g)))
@@ -298,6 +377,8 @@ def extra_roots(g, g0=None):
     out.append(g.K2('2', '3'))
     out.append(g.M2.parse('32'))
     out.append(g.M2('3', '2'))
+    out.append(g.L2('2', '3'))           # another class with the field names (and here values) of K2: never equal to a K2
+    out.append(g.L2.parse('23'))
     out.append(g.K1.parse('1'))
     out.append(g.K1('1'))
     out.append(g.K0.parse('0'))
@@ -368,6 +449,8 @@ def dispatch(job, st):
         return chain_job(st)
     if job[0] == 'dotted':
         return dotted_job(st)
+    if job[0] == 'long':
+        return long_job(st)
     if job[0] == 'single':
         return single_job(job[1:], st)
     return pair_job(job[1:], st)
@@ -378,12 +461,12 @@ def run(tier, seed):
     chk.rule = ('object graphs given by construction scripts: all rooted DAGs with <=4 nodes over leaves {None, 1, interned str, '
                 'equal-but-distinct str} and containers/objects {list, tuple, dict, K0, K1, K2, M2, Infix, Prefix(, Postfix)} with every '
                 'child slot either new or a back-reference to any earlier node (all aliasing patterns); per root: reflexivity, '
-                'fresh-copy equality+hash, _asdict, every single-field _replace x 4 values (metadata kept, and independent of the original in both directions), deepcopy, pickle, eval(repr); also <=3 nodes over NaN leaves; objects of a 3-level chain and of 6 grammars under dotted names (later members of a package, recompiled names): repr / deepcopy / pickle; all ordered '
+                'fresh-copy equality+hash, _asdict, copy.copy, every pickle protocol, every single-field _replace x 4 values (metadata kept, and independent of the original in both directions), deepcopy, pickle, eval(repr); also <=3 nodes over NaN leaves; containers of 1..40 items built, hashed and dropped in a loop (address reuse); objects of a 3-level chain (also after its base was revised under the same name and the chain rebuilt) and of 6 grammars under dotted names (later members of a package, recompiled names): repr / deepcopy / pickle; all ordered '
                 'pairs (quick: <=3 nodes; thorough: <=4 nodes over a reduced alphabet) incl. parsed objects with real metadata vs '
                 'hand-built equals: == vs reference structural equality, symmetry, !=, hash; triples inside equality classes; '
                 'non-trivial = graphs with containers or sharing (single) / equal pairs (pairs)')
     chk.assumptions = ['reference structural equality vf/ox.py:ref_eq', 'CPython copy/pickle protocols']
-    jobs = [('chain',), ('dotted',)] + [('single', tier, k) for k in range(NSLICES)] + [('pairs', tier, k) for k in range(NSLICES)]
+    jobs = [('chain',), ('dotted',), ('long',)] + [('single', tier, k) for k in range(NSLICES)] + [('pairs', tier, k) for k in range(NSLICES)]
     chk.explore(dispatch, jobs, init=init, chunk=1, job_deadline=900)
     return chk.finish(floor=1000)
 
